@@ -85,7 +85,7 @@ impl Minimums {
 impl<K, V> RecursiveContext<K, V>
 where
     K: Hash + Eq + Debug + Clone,
-    V: Debug + Clone,
+    V: Debug + Clone + PartialEq,
 {
     pub fn new(overflow_depth: usize, max_size: usize, cache: Option<Cache<K, V>>) -> Self {
         RecursiveContext {
@@ -258,6 +258,15 @@ where
                 std::mem::replace(&mut self.search_graph[dfn].solution, current_answer);
 
             if solver_stuff.reached_fixed_point(&old_answer, &self.search_graph[dfn].solution) {
+                if old_answer != self.search_graph[dfn].solution {
+                    // The iteration was cut short (e.g. because the answer
+                    // became ambiguous) without the answer being stable. The
+                    // results of the goals that depend on this one were
+                    // computed from the previous provisional answer, so they
+                    // are not final: discard them rather than reuse or cache
+                    // them.
+                    self.search_graph.rollback_to(dfn + 1);
+                }
                 return *minimums;
             }
 
